@@ -47,6 +47,7 @@ Definition implements (t : ty) (i : iface) : bool :=
 (* what is taken from the Go standard library / not modelled (see header) *)
 Record golib := {
   parse_float : string -> option float;      (* strconv.ParseFloat(s, 64): None = error *)
+  parse_int : string -> option Z;            (* strconv.Atoi(s): None = error *)
   fmt_float : float -> string;               (* strconv.FormatFloat(f, 'g', 14, 64) *)
   pow_float : float -> float -> float;       (* math.Pow *)
   obj_str : bool -> nat -> string            (* AsString of an object (false) / class instance (true) *)
@@ -157,8 +158,23 @@ Definition is_float (v : value) : bool := match v with VFloat _ => true | _ => f
 
 (* ------------------------------------------------------------------ + (binary_add.go) *)
 Definition denil (v : value) : value := match v with VNil => VNull | _ => v end.
+(* addNumericStringOperand: a numeric string next to an int/float is replaced by its number *)
+Definition is_number (v : value) : bool := match v with VInt _ | VFloat _ => true | _ => false end.
+Definition str_number (lib : golib) (s : string) : option value :=
+  match parse_int lib s with
+  | Some z => Some (VInt z)
+  | None => match parse_float lib s with Some f => Some (VFloat f) | None => None end
+  end.
+Definition numstr (lib : golib) (l r : value) : value * value :=
+  match l, r with
+  | VStr s, _ => if is_number r then match str_number lib s with Some n => (n, r) | None => (l, r) end else
+                 (l, r)
+  | _, VStr s => if is_number l then match str_number lib s with Some n => (l, n) | None => (l, r) end else
+                 (l, r)
+  | _, _ => (l, r)
+  end.
 Definition add (lib : golib) (l0 r0 : value) : outcome :=
-  let l := denil l0 in let r := denil r0 in
+  let (l, r) := numstr lib (denil l0) (denil r0) in
   let fast :=
     if is_float l || is_float r then
       match as_float lib l with
